@@ -181,6 +181,11 @@ func (k Keeper) AddDeposit(ctx sdk.Context, receiverAddr, senderAddr sdk.AccAddr
 			stream, _ = k.GetStream(ctx, receiverAddr, senderAddr)
 		}
 
+		// the new deposit only starts flowing now. Without this, an expired stream that was already
+		// emptied keeps its old last outflow time and the next claim pays out the top up for
+		// seconds that were never funded
+		stream.LastOutflowTime = nowTime
+
 		// stream expired or new. Calculate from now
 		depositZeroTime = nowTime.Add(time.Second * time.Duration(durationExtension))
 	} else {
